@@ -64,6 +64,9 @@
   static inline void N##_push_back(struct N *v, T x) { V_GUARD(v); __CPROVER_assume(v->size < CAP); v->data[v->size] = x; v->size++; } \
   static inline T *N##_at(struct N *v, size_t i) { if (i >= v->size) { __exc = V_EXC_OUT_OF_RANGE; return NULL; } return &v->data[i]; } \
   static inline T *N##_index(struct N *v, size_t i) { V_GUARD(v); __CPROVER_assert(i < v->size, "vector::operator[] index in range"); return &v->data[i]; }
+#ifndef V_ABS_HOOK
+#define V_ABS_HOOK(v, op) ((void)0)   /* typestate hook of the size-only model: op 1 push_back, 2 pop_back, 3 front */
+#endif
 /* size-only variant ("abstract bag") for containers whose CONTENT the contracts do not speak about: the sequence is its
  * length; an element read out is any value satisfying OK (the representation invariant the spec states for members). */
 #define V_VECABS_DECL(T, N, OK) \
@@ -76,10 +79,10 @@
   static inline _Bool N##_empty(const struct N *v) { V_GUARD(v); return v->size == 0; } \
   static inline void N##_reserve(struct N *v, size_t n) { (void)v; (void)n; } \
   static inline void N##_clear(struct N *v) { V_GUARD(v); v->size = 0; } \
-  static inline void N##_push_back(struct N *v, T x) { V_GUARD(v); (void)x; __CPROVER_assume(v->size + 1 < V_MAXSZ); v->size++; } \
-  static inline void N##_pop_back(struct N *v) { V_GUARD(v); __CPROVER_assert(v->size > 0, "vector::pop_back on a non-empty vector"); v->size--; } \
+  static inline void N##_push_back(struct N *v, T x) { V_GUARD(v); V_ABS_HOOK(v, 1); (void)x; __CPROVER_assume(v->size + 1 < V_MAXSZ); v->size++; } \
+  static inline void N##_pop_back(struct N *v) { V_GUARD(v); V_ABS_HOOK(v, 2); __CPROVER_assert(v->size > 0, "vector::pop_back on a non-empty vector"); v->size--; } \
   static inline void N##_pop_front(struct N *v) { V_GUARD(v); __CPROVER_assert(v->size > 0, "deque::pop_front on a non-empty container"); v->size--; } \
   static inline T *N##_index(struct N *v, size_t i) { V_GUARD(v); __CPROVER_assert(i < v->size, "vector::operator[] index in range"); return N##_any(); } \
   static inline T *N##_back(struct N *v) { V_GUARD(v); __CPROVER_assert(v->size > 0, "vector::back on a non-empty vector"); return N##_any(); } \
-  static inline T *N##_front(struct N *v) { V_GUARD(v); __CPROVER_assert(v->size > 0, "vector::front on a non-empty vector"); return N##_any(); }
+  static inline T *N##_front(struct N *v) { V_GUARD(v); V_ABS_HOOK(v, 3); __CPROVER_assert(v->size > 0, "vector::front on a non-empty vector"); return N##_any(); }
 #endif
